@@ -74,6 +74,12 @@ def mk_op(op, a, b, bits):
         if a == b and isinstance(a, tuple) and a and a[0] != 'f':
             # values are side-effect-free expression trees: x == x, x <= x, x >= x hold, the rest do not
             return C(1 if op in ('==', '<=', '>=') else 0, 1)
+        if op in ('==', '!='):
+            # x == x + c with a constant c that is not a multiple of 2^bits never holds (begin != begin + N)
+            for u, v in ((a, b), (b, a)):
+                if isinstance(v, tuple) and v and v[0] == 'op' and v[1] == '+' and v[2] == u and is_const(v[3]) and v[3][1] % (1 << 64) != 0 \
+                        and isinstance(u, tuple) and u and u[0] != 'f':
+                    return C(0 if op == '==' else 1, 1)
     return ('op', op, a, b, bits)
 
 
@@ -558,6 +564,10 @@ class Sim:
         return ('initlist', items, n.get('type', ''))
 
     def ev_lambda(self, n):
+        for ic in n.get('init_captures', []):
+            x = self.ev(ic['init'])
+            pth = ('var', ic['did'], ic['name'])
+            self.store[pth] = self.addr_of(self.lv_path(x)) if ic.get('isref') else self.rv(x)
         return ('lambda', n['fn'])
 
     def ev_throw(self, n):
@@ -612,6 +622,8 @@ class Sim:
         if n.get('copy_or_move') and len(args) == 1:
             a = args[0]
             src = self.rv(a)
+            if isinstance(src, tuple) and src and src[0] in ('lambda', 'fnref'):
+                return src
             if isinstance(src, tuple) and src and src[0] == 'obj' and (n.get('elidable') or (src[1] == n['record'] and not n.get('in_root'))):
                 return src
             self.event({'kind': 'construct', 'record': n['record'], 'ctor': n['ctor'], 'args': (a,),
@@ -655,27 +667,22 @@ class Sim:
             return x
         callee = n.get('callee', '?')
         fn = self.facts.functions.get(callee)
-        if fn is not None and self.eng.is_spin_function(fn) and args_nodes and args_nodes[0].get('k') in ('lambda', 'ref'):
-            lam = self.ev(args_nodes[0])
-            if isinstance(lam, tuple) and lam[0] == 'lambda':
+        if fn is not None and self.eng.is_spin_function(fn) and args_nodes:
+            lam = self.rv(self.ev(args_nodes[0]))
+            if isinstance(lam, tuple) and lam and lam[0] == 'lambda':
                 rest = [self.rv(self.ev(a)) for a in args_nodes[1:]]
                 return self.inline_spin(lam[1], rest, n)
-        if fn is not None and self.eng.inline_helper(fn) and self.depth < 4:
+            if isinstance(lam, tuple) and lam and lam[0] == 'fnref' and lam[1] in self.facts.functions:
+                # a named function passed as the spin predicate
+                rest = [self.rv(self.ev(a)) for a in args_nodes[1:]]
+                return self.inline_spin(lam[1], rest, n)
+            fun = self.functor_call_op(lam)
+            if fun is not None:
+                rest = [self.rv(self.ev(a)) for a in args_nodes[1:]]
+                return self.inline_spin(fun[0], rest, n, this_ptr=fun[1])
+        if fn is not None and self.eng.inline_helper(fn) and self.depth < 4 and len(args_nodes) == len(fn['params']):
             vals = [self.ev(a) for a in args_nodes]
-            for prm, a in zip(fn['params'], vals):
-                pp = ('var', prm['did'], prm['name'])
-                if prm.get('isref'):
-                    self.store[pp] = self.addr_of(self.lv_path(a))
-                else:
-                    self.store[pp] = self.rv(a)
-            self.event({'kind': 'inline_begin', 'callee': callee, 'line': n.get('line')})
-            self.depth += 1
-            saved_this = self.this_val
-            ret = self.run_body(fn)
-            self.this_val = saved_this
-            self.depth -= 1
-            self.event({'kind': 'inline_end', 'callee': callee, 'line': n.get('line')})
-            return ret
+            return self.inline_call(fn, vals, n, this_ptr=None)
         args = tuple(self.rv(self.ev(a)) for a in args_nodes)
         pure = name.startswith('std::') or name in ('pow', 'log', 'exp', 'sqrt') or n.get('builtin')
         if pure and name not in ('std::sort', 'std::unique', 'std::this_thread::sleep_for'):
@@ -685,6 +692,27 @@ class Sim:
         self.event({'kind': 'call', 'callee': callee, 'name': name, 'args': args, 'result': r,
                     'line': n.get('line'), 'in_root': n.get('in_root')})
         return r
+
+    def inline_call(self, fn, vals, n, this_ptr=None):
+        """analyse a helper's body in the caller's context: parameters bound to the argument values"""
+        for prm, a in zip(fn['params'], vals):
+            pp = ('var', prm['did'], prm['name'])
+            if prm.get('isref'):
+                self.store[pp] = self.addr_of(self.lv_path(a))
+            else:
+                self.store[pp] = self.rv(a)
+        self.event({'kind': 'inline_begin', 'callee': fn['key'], 'line': n.get('line')})
+        self.depth += 1
+        saved_this = self.this_val
+        if this_ptr is not None:
+            self.this_val = this_ptr
+        try:
+            ret = self.run_body(fn)
+        finally:
+            self.this_val = saved_this
+            self.depth -= 1
+        self.event({'kind': 'inline_end', 'callee': fn['key'], 'line': n.get('line')})
+        return ret
 
     def ev_mcall(self, n):
         rec = n.get('record', '')
@@ -697,6 +725,11 @@ class Sim:
             ptr = self.addr_of(opath)
         if is_atomic_record(rec):
             return self.atomic(n, opath)
+        fnm = self.facts.functions.get(n.get('callee'))
+        if fnm is not None and n.get('in_root') and self.eng.inline_helper(fnm) and self.depth < 4:
+            vals = [self.ev(a) for a in n['args'] if a.get('k') != 'defarg']
+            if len(vals) == len(fnm['params']):
+                return self.inline_call(fnm, vals, n, this_ptr=ptr)
         args = tuple(self.rv(self.ev(a)) if a.get('k') != 'defarg' else ('defarg',) for a in n['args'])
         method = n.get('method', '?')
         ver = self.store.get(('objver', opath), 0)
@@ -820,7 +853,48 @@ class Sim:
         raise AnalysisBroken('%s:%s: unknown atomic member %s' % (self.cur_fn['file'], line, m))
 
     # ---- spin summaries
-    def inline_spin(self, lam_key, args, call_node):
+    def functor_call_op(self, v):
+        """v is an object of a repository class with operator(): (key of operator(), pointer to a fresh copy of the
+        object whose members hold the construction arguments)"""
+        rec, items = None, None
+        if isinstance(v, tuple) and v and v[0] == 'initlist' and len(v) > 2:
+            rec, items = v[2], v[1]
+        elif isinstance(v, tuple) and v and v[0] == 'obj':
+            rec, items = v[1], v[3]
+        if not rec:
+            return None
+        recname = next((r for r in self.facts.records if r == rec or r.endswith('::' + rec)), None)
+        if recname is None:
+            return None
+        ops = [f for f in self.facts.functions.values() if f.get('record') == recname and f['short'] == 'operator()']
+        if len(ops) != 1:
+            return None
+        ptr = self.new_sym('functor:' + rec.split('::')[-1])
+        fields = [f['name'] for f in self.facts.records[recname]['fields']]
+        if v[0] == 'obj':
+            fx = None
+            ctor = self.facts.functions.get(v[2])
+            if ctor is not None:
+                # member initialisers of the constructor, parameters bound to the arguments
+                return None if len(ctor['params']) != len(items) else self._functor_via_ctor(ops[0], ctor, items, ptr)
+        for name, val in zip(fields, items):
+            self.store[('field', ptr, name)] = val
+        return ops[0]['key'], ptr
+
+    def _functor_via_ctor(self, op, ctor, items, ptr):
+        for prm, a in zip(ctor['params'], items):
+            self.store[('var', prm['did'], prm['name'])] = a
+        saved = self.this_val
+        self.this_val = ptr
+        self.depth += 1
+        try:
+            self.run_body(ctor)
+        finally:
+            self.depth -= 1
+            self.this_val = saved
+        return op['key'], ptr
+
+    def inline_spin(self, lam_key, args, call_node, this_ptr=None):
         lam = self.facts.functions.get(lam_key)
         if lam is None:
             raise AnalysisBroken('lambda body %s not extracted' % lam_key)
@@ -832,9 +906,15 @@ class Sim:
             self.store[('var', p['did'], p['name'])] = a
         self.spin_depth += 1
         self.depth += 1
-        ret = self.run_body(lam)
-        self.depth -= 1
-        self.spin_depth -= 1
+        saved_this = self.this_val
+        if this_ptr is not None:
+            self.this_val = this_ptr
+        try:
+            ret = self.run_body(lam)
+        finally:
+            self.this_val = saved_this
+            self.depth -= 1
+            self.spin_depth -= 1
         t = mk_ne0(ret) if ret is not None else FALSE
         if is_const(t) and not t[1]:
             # an iteration that does not leave the spin: remember its events, abandon the path
@@ -1012,15 +1092,22 @@ class Engine:
         self._paths = {}
         self._lh = {}
         self.no_inline = set()
+        import anchors as _anchors
+        self.anchors = _anchors.compute(facts)      # function keys that rules analyse on their own (never inlined)
 
     def inline_helper(self, fn):
         """free (non-member) functions defined in the repository that are not spin functions are helpers:
         their bodies are analysed in the caller's context (parameters bound to the argument values)"""
-        if fn.get('kind') != 'function' or fn.get('cfg_error') or not fn.get('blocks'):
+        if fn.get('kind') not in ('function', 'method') or fn.get('cfg_error') or not fn.get('blocks'):
             return False
-        if self.is_spin_function(fn):
+        if fn.get('kind') == 'function':
+            if self.is_spin_function(fn):
+                return False
+            return fn['key'] not in self.no_inline
+        # member functions: only when a rule family has declared its anchors (everything else is a helper)
+        if self.anchors is None:
             return False
-        return fn['key'] not in self.no_inline
+        return fn['key'] not in self.anchors and fn['key'] not in self.no_inline and not fn['short'].startswith('operator')
 
     def block_map(self, fn):
         k = fn['key']
@@ -1079,11 +1166,10 @@ class Engine:
         return self._spin[fn['key']][1]
 
     def _check_spin(self, fn):
-        """fn(proc, args...) is a spin function iff it returns void, its first parameter is a
-        callable, and in its CFG the only edges into the exit block come from `return`
-        statements that are reached only through the true branch of a condition that is the
-        result of calling that first parameter with the remaining parameters, and the CFG
-        writes nothing but its own locals."""
+        """fn(proc, args...) is a spin function iff it returns void, calls its first parameter with exactly the
+        remaining parameters at one call site inside a loop, has no other effects than pausing / sleeping, and every
+        edge that leaves towards the function's exit (a return statement or the end of the body) is an edge on which
+        the result of that call is true (`if (proc(..)) return;` or the false edge of `while (!proc(..))`)."""
         if fn.get('kind') != 'function' or not fn['params'] or fn['ret'].get('ct') != 'void':
             return False, 'not a void function with parameters'
         p0 = fn['params'][0]
@@ -1094,68 +1180,95 @@ class Engine:
                 if e['kind'] != 'stmt':
                     continue
                 n = e['e']
-                if n.get('k') == 'opcall' and n.get('op') == '()' and n['args'] and n['args'][0].get('k') == 'var' \
-                        and n['args'][0].get('did') == p0['did']:
-                    # remaining arguments must be exactly the remaining parameters, in order
-                    rest = n['args'][1:]
+                is_call = False
+                if n.get('k') == 'opcall' and n.get('op') == '()' and n['args'] and self._is_var(n['args'][0], p0['did']):
+                    is_call, rest = True, n['args'][1:]
+                elif n.get('k') == 'call' and n.get('callee') == '?' and self._is_var(n.get('fnexpr') or {}, p0['did']):
+                    is_call, rest = True, n['args']
+                if is_call:
                     want = [q['did'] for q in fn['params'][1:]]
-                    def unwrap(a):
-                        while a.get('k') == 'cast':
-                            a = a['e']
-                        return a
-                    rest = [unwrap(a) for a in rest]
+                    rest = [self._unwrap(a) for a in rest]
                     got = [a.get('did') for a in rest if a.get('k') == 'var']
                     if got != want or len(rest) != len(want):
                         return False, 'first parameter called with other arguments than the remaining parameters'
                     calls.append((b['id'], e['id']))
                 elif n.get('k') in ('mcall', 'new', 'delete', 'throw'):
                     return False, 'body has other effects (%s)' % n.get('k')
-                elif n.get('k') == 'call' and n.get('name') not in ('std::this_thread::sleep_for', '_mm_pause') \
-                        and not n.get('builtin'):
+                elif n.get('k') == 'call' and n.get('name') not in ('std::this_thread::sleep_for', '_mm_pause') and not n.get('builtin'):
                     return False, 'body calls %s' % n.get('name')
                 elif n.get('k') == 'opcall' and not (n.get('op') == '()'):
                     return False, 'body uses operator %s' % n.get('op')
         if len(calls) != 1:
-            return False, 'first parameter is not called exactly once per iteration'
+            return False, 'first parameter is not called at exactly one site'
         cb, cid = calls[0]
-        # every predecessor chain of a return must come through the true edge of `if (call)`
-        ret_blocks = []
-        for b in fn['blocks']:
-            for e in b['elems']:
-                if e['kind'] == 'stmt' and e['e'].get('k') == 'return':
-                    ret_blocks.append(b['id'])
-        if not ret_blocks:
-            return False, 'no return'
         preds = {}
         for b in fn['blocks']:
-            for i, s in enumerate(b['succs']):
-                if s is not None:
-                    preds.setdefault(s, []).append((b['id'], i))
-        for rb in ret_blocks:
-            for (pb, idx) in preds.get(rb, []):
-                t = blocks[pb].get('term')
-                if not t or 'cond' not in t or idx != 0:
-                    return False, 'return reachable without testing the procedure result'
-                c = t['cond']
-                while c.get('k') == 'cast':
+            for i, s_ in enumerate(b['succs']):
+                if s_ is not None:
+                    preds.setdefault(s_, []).append((b['id'], i))
+        # the exit region: the exit block and blocks that only return / are empty and lead to the exit
+        region = {fn['exit']}
+        changed = True
+        while changed:
+            changed = False
+            for b in fn['blocks']:
+                if b['id'] in region:
+                    continue
+                only_ret = all(e['kind'] == 'stmt' and e['e'].get('k') == 'return' for e in b['elems'])
+                succs = [x for x in b['succs'] if x is not None]
+                if only_ret and succs and all(x in region for x in succs) and not b.get('term'):
+                    region.add(b['id'])
+                    changed = True
+
+        def call_truth(cond):
+            """+1 if cond is the call result, -1 if it is its negation, 0 otherwise"""
+            sign = 1
+            c = cond
+            elems = self.elem_map(fn)
+            for _ in range(16):
+                if c.get('k') == 'cast':
                     c = c['e']
-                if c.get('id') != cid:
-                    return False, 'return guarded by something else than the procedure result'
-        # the exit block must be reachable only from those return blocks
-        for (pb, idx) in preds.get(fn['exit'], []):
-            if pb not in ret_blocks:
-                return False, 'function can fall off its end without the procedure having returned true'
-        # the call must be inside a loop: block of the call reachable from itself
-        seen, todo = set(), [s for s in blocks[cb]['succs'] if s is not None]
+                elif c.get('k') == 'un' and c.get('op') == '!':
+                    sign, c = -sign, c['e']
+                elif c.get('k') == 'ref' and c.get('id') != cid and c.get('id') in elems:
+                    c = elems[c['id']]
+                else:
+                    break
+            return sign if c.get('id') == cid else 0
+        entered = 0
+        for r in list(region):
+            for (pb, idx) in preds.get(r, []):
+                if pb in region:
+                    continue
+                t = blocks[pb].get('term')
+                if not t or 'cond' not in t:
+                    return False, 'the function can reach its exit without testing the procedure result'
+                ct = call_truth(t['cond'])
+                if not ((ct == 1 and idx == 0) or (ct == -1 and idx == 1)):
+                    return False, 'an exit edge is not the "procedure returned true" edge'
+                entered += 1
+        if not entered:
+            return False, 'no exit edge found'
+        seen, todo = set(), [x for x in blocks[cb]['succs'] if x is not None]
         while todo:
             x = todo.pop()
             if x in seen:
                 continue
             seen.add(x)
-            todo.extend(s for s in blocks[x]['succs'] if s is not None)
+            todo.extend(y for y in blocks[x]['succs'] if y is not None)
         if cb not in seen:
             return False, 'procedure call is not in a loop'
-        return True, 'calls its first parameter in a loop and returns iff the result is true'
+        return True, 'calls its first parameter in a loop and leaves only when the result is true'
+
+    @staticmethod
+    def _unwrap(a):
+        while a.get('k') == 'cast':
+            a = a['e']
+        return a
+
+    def _is_var(self, a, did):
+        a = self._unwrap(a)
+        return a.get('k') == 'var' and a.get('did') == did
 
     # ---- path enumeration
     def paths(self, fn, init_store=None, keep=('return', 'throw')):
